@@ -129,12 +129,115 @@ func c11Check(c c11Case) *evid.Fail {
 	return watchdog(20*time.Second, "partial-codec-hang", func() *evid.Fail { return c11CheckInner(c) })
 }
 
+// c11Declares16MiB walks the leading fields the way the native-protocol layout prescribes and
+// reports whether a [long string] declares more than 16 MiB. The proxy enforces no frame-size
+// limit; such declared lengths are a resource question that the properties leave out of scope
+// (C17), and decoding them allocates the declared size.
+func c11Declares16MiB(op primitive.OpCode, flags primitive.HeaderFlag, b []byte) bool {
+	const lim = 16 << 20
+	i := 0
+	i32 := func() (int, bool) {
+		if i+4 > len(b) {
+			return 0, false
+		}
+		n := int(int32(uint32(b[i])<<24 | uint32(b[i+1])<<16 | uint32(b[i+2])<<8 | uint32(b[i+3])))
+		i += 4
+		return n, true
+	}
+	u16 := func() (int, bool) {
+		if i+2 > len(b) {
+			return 0, false
+		}
+		n := int(b[i])<<8 | int(b[i+1])
+		i += 2
+		return n, true
+	}
+	if flags.Contains(primitive.HeaderFlagCustomPayload) {
+		n, ok := u16()
+		for k := 0; ok && k < n; k++ {
+			var l int
+			if l, ok = u16(); !ok {
+				return false
+			}
+			i += l
+			if l, ok = i32(); !ok {
+				return false
+			}
+			if l > lim {
+				return true
+			}
+			if l > 0 {
+				i += l
+			}
+		}
+		if !ok {
+			return false
+		}
+	}
+	switch op {
+	case primitive.OpCodeQuery:
+		n, ok := i32()
+		return ok && n > lim
+	case primitive.OpCodeBatch:
+		i++ // type
+		cnt, ok := u16()
+		for k := 0; ok && k < cnt; k++ {
+			if i >= len(b) {
+				return false
+			}
+			kind := b[i]
+			i++
+			switch kind {
+			case 0:
+				n, ok2 := i32()
+				if !ok2 {
+					return false
+				}
+				if n > lim {
+					return true
+				}
+				if n > 0 {
+					i += n
+				}
+			case 1:
+				n, ok2 := u16()
+				if !ok2 {
+					return false
+				}
+				i += n
+			default:
+				return false
+			}
+			nv, ok2 := u16()
+			if !ok2 {
+				return false
+			}
+			for j := 0; j < nv; j++ {
+				l, ok3 := i32()
+				if !ok3 {
+					return false
+				}
+				if l > lim {
+					return true
+				}
+				if l > 0 {
+					i += l
+				}
+			}
+		}
+	}
+	return false
+}
+
 func c11CheckInner(c c11Case) *evid.Fail {
 	body, err := hex.DecodeString(c.Body)
 	if err != nil {
 		return nil
 	}
 	v, op, flags := primitive.ProtocolVersion(c.Version), primitive.OpCode(c.Op), primitive.HeaderFlag(c.Flags)
+	if (c.Mode == "mutant" || c.Mode == "fuzz") && c11Declares16MiB(op, flags, body) {
+		return nil // out of scope (resource question)
+	}
 	where := fmt.Sprintf("%s/%s", opName(op), protogen.VersionName(v))
 	orig := append([]byte(nil), body...)
 	b, d, err := c11PartialDecode(v, op, flags, body)
@@ -192,7 +295,33 @@ func c11CheckInner(c c11Case) *evid.Fail {
 			return evid.Failf("rawframe-differs:"+where, "ConvertToRawFrame body differs from the original")
 		}
 	}
-	// differential against the reference decoder whenever it accepts the same bytes
+	// the whole-frame path the proxy takes when it forwards a re-encoded request (EncodeFrame): the
+	// declared body length must be the real one and the bytes must be the original ones. (Frames with
+	// the tracing flag are left to C12, where the length defect of that path is a recorded finding.)
+	if !flags.Contains(primitive.HeaderFlagTracing) {
+		var fb bytes.Buffer
+		fr := &frame.Frame{Header: &frame.Header{Version: v, OpCode: op, Flags: flags, StreamId: 1}, Body: b}
+		if err := codecs.CustomRawCodec.EncodeFrame(fr, &fb); err != nil {
+			return evid.Failf("encodeframe-error:"+where, "EncodeFrame of the partially decoded message failed: %v", err)
+		}
+		out := fb.Bytes()
+		if len(out) < 9 {
+			return evid.Failf("encodeframe-short:"+where, "EncodeFrame wrote %d bytes", len(out))
+		}
+		declared := int(uint32(out[5])<<24 | uint32(out[6])<<16 | uint32(out[7])<<8 | uint32(out[8]))
+		if declared != len(out)-9 {
+			return evid.Failf("frame-length-wrong:"+where, "re-encoded frame declares %d body bytes but carries %d (input %s)", declared, len(out)-9, trunc(c.Body))
+		}
+		if !bytes.Equal(out[9:], orig) {
+			return evid.Failf("frame-body-differs:"+where, "re-encoded frame body differs from the original (input %s)", trunc(c.Body))
+		}
+	}
+	// differential against the reference decoder whenever it accepts the same bytes (only for bytes
+	// the reference encoder produced or prefixes of them: on arbitrary mutants the full reference
+	// decoder allocates whatever length a misaligned field happens to declare)
+	if !exact {
+		return nil
+	}
 	if rb, rerr := protogen.Ref.DecodeBody(&frame.Header{Version: v, OpCode: op, Flags: flags, BodyLength: int32(len(orig))}, bytes.NewReader(orig)); rerr == nil {
 		ref := c11RefExpect(v, rb.Message)
 		got := d.exp
@@ -356,7 +485,7 @@ func TestC11(t *testing.T) {
 		return c11Case{Mode: mode, Version: int(g.v), Op: int(g.msg.GetOpCode()), Flags: int(g.flags), Body: hex.EncodeToString(g.body), Expect: &exp}
 	}
 
-	runProp(t, rec, "valid", perShard(evid.Pick(16000, 1600000)), func(rt *rapid.T) c11Case {
+	runProp(t, rec, "valid", perShard(evid.Pick(40000, 2400000)), func(rt *rapid.T) c11Case {
 		g := c11GenMsg(rt)
 		c := mk(g, "valid")
 		rec.Case(g.nontrivialKey(), g.labels()...)
@@ -367,7 +496,7 @@ func TestC11(t *testing.T) {
 	}, c11Check)
 
 	// prefixes: every cut for small bodies, sampled cuts for large ones
-	runProp(t, rec, "prefix", perShard(evid.Pick(3000, 300000)), func(rt *rapid.T) c11Case {
+	runProp(t, rec, "prefix", perShard(evid.Pick(12000, 800000)), func(rt *rapid.T) c11Case {
 		g := c11GenMsg(rt)
 		c := mk(g, "prefix")
 		// where do the leading fields end? (from the reference message, not from the decoder under test)
@@ -414,7 +543,7 @@ func TestC11(t *testing.T) {
 	}, c11Check)
 
 	// field-aware mutations and random byte flips
-	runProp(t, rec, "mutant", perShard(evid.Pick(4000, 400000)), func(rt *rapid.T) c11Case {
+	runProp(t, rec, "mutant", perShard(evid.Pick(24000, 1600000)), func(rt *rapid.T) c11Case {
 		g := c11GenMsg(rt)
 		c := mk(g, "mutant")
 		b := append([]byte(nil), g.body...)
@@ -424,9 +553,17 @@ func TestC11(t *testing.T) {
 			if rapid.Bool().Draw(rt, "early") && len(b) > 40 {
 				at = rapid.IntRange(0, 39).Draw(rt, "atearly")
 			}
+			// bytes keep their position (no insertion/deletion) and a zero byte only ever becomes >= 0x80,
+			// so a length field of a generated body never declares more than 16 MiB by mutation
+			set := func(x byte) {
+				if b[at] == 0 && x < 0x80 {
+					x |= 0x80
+				}
+				b[at] = x
+			}
 			switch rapid.IntRange(0, 5).Draw(rt, "mut") {
 			case 0:
-				b[at] = rapid.Byte().Draw(rt, "byte")
+				set(rapid.Byte().Draw(rt, "byte"))
 			case 1:
 				b[at] = 0xff
 			case 2:
@@ -437,7 +574,11 @@ func TestC11(t *testing.T) {
 				hl := rapid.SampledFrom([][]byte{{0xff, 0xff, 0xff, 0xff}, {0x00, 0xff, 0xff, 0xff}, {0, 0, 0, 0}, {0xff, 0xff, 0xff, 0xfe}, {0x80, 0, 0, 0}, {0, 0, 0xff, 0xff}}).Draw(rt, "hostilelen")
 				copy(b[at:], hl)
 			case 5:
-				b = append(b[:at], b[at+1:]...)
+				if b[at] != 0 {
+					b[at] ^= byte(1 << uint(rapid.IntRange(0, 6).Draw(rt, "bit")))
+				} else {
+					b[at] = 0x80
+				}
 			}
 		}
 		c.Body = hex.EncodeToString(b)
@@ -447,7 +588,7 @@ func TestC11(t *testing.T) {
 	}, c11Check)
 
 	// arbitrary bytes for every (version, opcode)
-	runProp(t, rec, "bytes", perShard(evid.Pick(6000, 600000)), func(rt *rapid.T) c11Case {
+	runProp(t, rec, "bytes", perShard(evid.Pick(24000, 1600000)), func(rt *rapid.T) c11Case {
 		v := protogen.Version(rt)
 		op := []primitive.OpCode{primitive.OpCodeQuery, primitive.OpCodeExecute, primitive.OpCodeBatch}[rapid.IntRange(0, 2).Draw(rt, "op")]
 		b := rapid.SliceOfN(rapid.Byte(), 0, 80).Draw(rt, "bytes")
